@@ -16,6 +16,10 @@ import time
 import z3
 
 TIMEOUT_MS = int(os.environ.get("PYVC_TIMEOUT_MS", "10000"))
+# z3's wall-clock timeout is not honoured inside nlsat; the resource limit is, and it is
+# deterministic (verdicts do not flip when the machine is busy).  ~1e6 units ~ 0.5 s.
+RLIMIT_PROVE = int(os.environ.get("PYVC_RLIMIT", str(TIMEOUT_MS * 2000)))
+RLIMIT_BRANCH = int(os.environ.get("PYVC_RLIMIT_BRANCH", "1500000"))
 SEED = int(os.environ.get("VERIF_SEED", "0") or 0)
 
 
@@ -46,6 +50,12 @@ class Path:
         self.solver = z3.Solver()
         self.solver.set("timeout", TIMEOUT_MS)
         self.solver.set("random_seed", SEED % 1000)
+        # branch feasibility is decided on the linear part of the path condition only (an
+        # over-approximation: it may keep an infeasible path, never drop a feasible one)
+        self.light = z3.Solver()
+        self.light.set("timeout", 2000)
+        self.decided = {}
+        self.keepalive = []  # terms whose id() is used as a key must stay alive (ids are recycled)
         self.forks = []  # prefixes still to explore
         self.counter = {}
         self.obligations = []  # Obligation records
@@ -59,6 +69,7 @@ class Path:
         self.solver_time = 0.0
 
     def fresh_name(self, base):
+        base = "%s" % base
         n = self.counter.get(base, 0)
         self.counter[base] = n + 1
         return base if n == 0 else "%s!%d" % (base, n)
@@ -66,14 +77,92 @@ class Path:
     def add(self, term):
         self.pc.append(term)
         self.solver.add(term)
+        if not is_nonlinear(term):
+            self.light.add(term)
 
-    def check(self, *extra):
+    def feasible(self, t):
         t0 = time.time()
-        r = self.solver.check(*extra)
+        self.light.set("rlimit", RLIMIT_BRANCH)
+        r = _guarded(lambda: self.light.check(t), 5.0)
+        self.solver_time += time.time() - t0
+        return r != z3.unsat
+
+    def check(self, *extra, budget=None):
+        t0 = time.time()
+        self.solver.set("rlimit", budget or RLIMIT_PROVE)
+        r = _guarded(lambda: self.solver.check(*extra), 3.0 * TIMEOUT_MS / 1000.0)
         self.solver_time += time.time() - t0
         return r
 
 
+_nl_cache = {}
+
+
+def _guarded(fn, seconds):
+    """wall-clock safety net: z3 ignores its own timeout inside nlsat, and rlimit is not checked
+    everywhere; a watchdog thread interrupts the context (the answer is then `unknown`)"""
+    import threading
+
+    ctx = z3.main_ctx()
+    timer = threading.Timer(seconds, ctx.interrupt)
+    timer.daemon = True
+    timer.start()
+    try:
+        return fn()
+    except z3.Z3Exception:
+        return z3.unknown
+    finally:
+        timer.cancel()
+
+
+def is_nonlinear(t):
+    """syntactic test: a product of two non-numerals, a division by a non-numeral, a quantifier or
+    a lambda anywhere in the term"""
+    key = t.get_id()
+    hit = _nl_cache.get(key)
+    if hit is not None and hit[0].eq(t):
+        return hit[1]
+    r = False
+    stack = [t]
+    seen = set()
+    while stack and not r:
+        x = stack.pop()
+        i = x.get_id()
+        if i in seen:
+            continue
+        seen.add(i)
+        if z3.is_quantifier(x):
+            r = True
+            break
+        if z3.is_app(x):
+            k = x.decl().kind()
+            if k == z3.Z3_OP_MUL:
+                nn = [c for c in x.children() if not (z3.is_int_value(c) or z3.is_rational_value(c))]
+                if len(nn) >= 2:
+                    r = True
+                    break
+            elif k in (z3.Z3_OP_DIV, z3.Z3_OP_IDIV, z3.Z3_OP_MOD):
+                d = x.children()[1]
+                if not (z3.is_int_value(d) or z3.is_rational_value(d)):
+                    r = True
+                    break
+            stack.extend(x.children())
+    if len(_nl_cache) > 50000:
+        _nl_cache.clear()
+    _nl_cache[key] = (t, r)
+    return r
+
+
+def tid(t):
+    """id of a z3 term usable as a dictionary key for the lifetime of the current path"""
+    if _cur is not None:
+        _cur.keepalive.append(t)
+    else:
+        _GLOBAL_KEEP.append(t)
+    return t.get_id()
+
+
+_GLOBAL_KEEP = []
 _cur = None
 
 
@@ -394,7 +483,7 @@ def pow2(n):
         return SV(rv(fractions.Fraction(2) ** c), "r")
     t = n.t
     p = cur()
-    key = ("pow2", t.get_id())
+    key = ("pow2", tid(t))
     if key not in p.counter:
         p.counter[key] = 1
         p.add(_pow2(t) > 0)
@@ -449,10 +538,10 @@ def sqrt(x):
     x = SV.lift(x)
     c = concrete(x)
     p = cur()
-    key = ("sqrt", z3.simplify(x.real()).get_id())
+    key = ("sqrt", tid(z3.simplify(x.real())))
     if key in p.counter:
         return p.counter[key]
-    r = z3.Real(p.fresh_name("sqrt"))
+    r = z3.Real(p.fresh_name("sqrt_r"))
     xr = x.real()
     p.add(z3.Implies(xr >= 0, z3.And(r >= 0, r * r == xr)))
     if c is not None:
@@ -574,12 +663,19 @@ def decide(t):
         return False
     i = len(p.trace)
     if i < len(p.prefix):
+        tid0 = tid(t)
+        if tid0 in p.decided:
+            return p.decided[tid0]
         v = p.prefix[i]
         p.trace.append(v)
         p.add(t if v else z3.Not(t))
+        p.decided[tid0] = v
         return v
-    can_t = p.check(t) != z3.unsat
-    can_f = p.check(z3.Not(t)) != z3.unsat
+    tidx = tid(t)
+    if tidx in p.decided:
+        return p.decided[tidx]
+    can_t = p.feasible(t)
+    can_f = p.feasible(z3.Not(t))
     if not can_t and not can_f:
         raise Infeasible()
     if can_t and can_f:
@@ -589,6 +685,7 @@ def decide(t):
         v = can_t
     p.trace.append(v)
     p.add(t if v else z3.Not(t))
+    p.decided[tidx] = v
     return v
 
 
@@ -606,7 +703,10 @@ def note(msg):
 def cover(name):
     """Reachability marker (vacuity guard): the current pc must be satisfiable."""
     p = cur()
-    r = p.check()
+    p.light.set("rlimit", RLIMIT_BRANCH)
+    r = p.light.check()
+    if r == z3.sat and len(p.light.assertions()) != len(p.solver.assertions()):
+        r = "unknown"  # only the linear part was checked
     p.covers.append((name, str(r)))
     return r == z3.sat
 
@@ -623,7 +723,14 @@ def prove(name, cond, detail=None):
     if z3.is_true(ts):
         ob.status, ob.backend = "discharged", "simplifier"
     else:
-        r = p.check(z3.Not(t))
+        try:
+            r = _sliced_unsat(p, t)
+        except Exception:  # the slicing front end is an optimisation only
+            r = None
+        if r != z3.unsat:
+            r = p.check(z3.Not(t))
+        else:
+            ob.backend = "z3-slice"
         if r == z3.unsat:
             ob.status = "discharged"
         elif r == z3.sat:
@@ -646,6 +753,226 @@ def prove(name, cond, detail=None):
     if ob.status == "discharged":
         p.add(t)
     return ob.status == "discharged"
+
+
+def _symbols(t, cache):
+    key = t.get_id()
+    hit = cache.get(key)
+    if hit is not None and hit[0].eq(t):
+        return hit[1]
+    out = set()
+    stack = [t]
+    seen = set()
+    while stack:
+        x = stack.pop()
+        i = x.get_id()
+        if i in seen:
+            continue
+        seen.add(i)
+        if z3.is_quantifier(x):
+            stack.append(x.body())
+            continue
+        if z3.is_app(x):
+            if x.num_args() == 0:
+                if x.decl().kind() == z3.Z3_OP_UNINTERPRETED:
+                    out.add(x.decl().name())
+            else:
+                if x.decl().kind() == z3.Z3_OP_UNINTERPRETED:
+                    # an applied function is keyed by the whole application when its arguments are
+                    # constants (SCALE(sid_ua), a(i0)), else by the function name
+                    ch = x.children()
+                    if all(z3.is_app(c) and c.num_args() == 0 for c in ch):
+                        out.add(x.sexpr())
+                        for c in ch:
+                            if z3.is_app(c) and c.decl().kind() == z3.Z3_OP_UNINTERPRETED:
+                                out.add(c.decl().name())
+                        continue
+                    out.add(x.decl().name())
+                stack.extend(x.children())
+    cache[key] = (t, out)
+    return out
+
+
+def _sliced_unsat(p, goal):
+    """try to prove the goal from growing subsets of the path condition (sound: fewer
+    hypotheses): first the conjuncts that talk only about the goal's symbols, then one and two
+    rounds of the cone of influence.  Returns z3.unsat on success; anything else means 'try the
+    full query'."""
+    if len(p.pc) < 12:
+        return None
+    cache = p.counter.setdefault("@symcache", {})
+    gs = set(_symbols(goal, cache))
+    sets = [(_symbols(c, cache), c) for c in p.pc]
+    tried = 0
+    want = set(gs)
+    for level in range(4):
+        if level == 0:
+            sub = [c for ss, c in sets if ss <= want]
+        elif level == 3:
+            sub = list(p.pc)
+        else:
+            grown = set(want)
+            for ss, c in sets:
+                if ss & want:
+                    grown |= ss
+            want = grown
+            sub = [c for ss, c in sets if ss <= want]
+        if len(sub) == tried:
+            continue
+        tried = len(sub)
+        s = z3.Solver()
+        s.set("timeout", max(1000, TIMEOUT_MS // 4))
+        s.set("rlimit", RLIMIT_PROVE // 8)
+        s.add(*sub)
+        s.add(z3.Not(goal))
+        t0 = time.time()
+        nl = is_nonlinear(goal) or any(is_nonlinear(c) for c in sub)
+        if nl:
+            r = _nra_split_unsat(sub, goal)
+            if r == z3.unsat:
+                p.solver_time += time.time() - t0
+                return r
+        r = _guarded(lambda: s.check(), max(1.0, TIMEOUT_MS / (20000.0 if nl else 4000.0)))
+        p.solver_time += time.time() - t0
+        if r == z3.unsat:
+            return r
+    return None
+
+
+def _has_int_var(t, cache):
+    key = t.get_id()
+    hit = cache.get(key)
+    if hit is not None and hit[0].eq(t):
+        return hit[1]
+    r = False
+    if z3.is_int_value(t) or z3.is_rational_value(t):
+        r = False
+    elif z3.is_quantifier(t):
+        r = True
+    elif z3.is_app(t):
+        if t.num_args() == 0:
+            r = t.sort() == z3.IntSort() and t.decl().kind() == z3.Z3_OP_UNINTERPRETED
+        else:
+            r = any(_has_int_var(c, cache) for c in t.children())
+    cache[key] = (t, r)
+    return r
+
+
+def _nra_split_unsat(hyps, goal):
+    """Nonlinear real obligations: purify uninterpreted applications, let the linear/integer part
+    only contribute the equalities it entails between purified reals, and hand the pure real part
+    to nlsat.  Uses a subset of the hypotheses and consequences of them: sound."""
+    import itertools as _it
+
+    neg = z3.Not(goal)
+    apps = {}
+
+    def collect(t, seen):
+        i = t.get_id()
+        if i in seen:
+            return
+        seen.add(i)
+        if z3.is_quantifier(t):
+            return
+        if z3.is_app(t):
+            if t.num_args() > 0 and t.decl().kind() == z3.Z3_OP_UNINTERPRETED and t.sort() == z3.RealSort():
+                apps.setdefault(t.sexpr(), t)
+            for c in t.children():
+                collect(c, seen)
+
+    seen = set()
+    for c in hyps + [neg]:
+        collect(c, seen)
+    if len(apps) > 60:
+        return None
+    subs, items = [], []
+    for k, (sx, t) in enumerate(apps.items()):
+        v = z3.Real("pur!%d" % k)
+        subs.append((t, v))
+        items.append((t, v))
+    pur = [z3.substitute(c, *subs) for c in hyps]
+    pneg = z3.substitute(neg, *subs)
+    cache = {}
+    if _has_int_var(pneg, cache):
+        return None
+    lin = z3.Solver()
+    lin.set("timeout", 2000)
+    for c in pur:
+        if not is_nonlinear(c):
+            lin.add(c)
+    eqs = []
+    for (t1, v1), (t2, v2) in _it.combinations(items, 2):
+        if t1.decl().eq(t2.decl()):
+            args_eq = z3.And(*[a == b for a, b in zip(t1.children(), t2.children())])
+            if lin.check(z3.Not(args_eq)) == z3.unsat:
+                eqs.append(v1 == v2)
+    # resolve integer-only conditions with the linear part (Implies / If guards such as 0 <= i < n)
+    memo = {}
+
+    def decide_bool(b):
+        k = b.get_id()
+        if k in memo and memo[k][0].eq(b):
+            return memo[k][1]
+        out = None
+        if not is_nonlinear(b):
+            if lin.check(z3.Not(b)) == z3.unsat:
+                out = True
+            elif lin.check(b) == z3.unsat:
+                out = False
+        memo[k] = (b, out)
+        return out
+
+    def resolve(t, depth=0):
+        if depth > 40 or not z3.is_app(t) or not _has_int_var(t, cache):
+            return t
+        if t.sort() == z3.BoolSort():
+            d = decide_bool(t)
+            if d is not None:
+                return z3.BoolVal(d)
+        ch = [resolve(c, depth + 1) for c in t.children()]
+        if not ch:
+            return t
+        try:
+            return t.decl()(*ch)
+        except Exception:
+            return t
+
+    real = []
+    atoms = {}
+
+    def real_atoms(t, depth=0):
+        """maximal boolean subterms without integer variables inside a mixed conjunct"""
+        if depth > 30 or not z3.is_app(t) or t.sort() != z3.BoolSort():
+            return
+        if not _has_int_var(t, cache):
+            if not (z3.is_true(t) or z3.is_false(t)):
+                atoms.setdefault(t.get_id(), t)
+            return
+        for ch in t.children():
+            real_atoms(ch, depth + 1)
+
+    for c in pur:
+        if _has_int_var(c, cache):
+            real_atoms(c)
+            c2 = z3.simplify(resolve(c)) if is_nonlinear(c) else None
+            if c2 is not None and not z3.is_true(c2) and not _has_int_var(c2, cache):
+                real.append(c2)
+        else:
+            real.append(c)
+    # theory propagation: real-only literals entailed by the linear/integer part
+    for a in list(atoms.values())[:200]:
+        if is_nonlinear(a):
+            continue
+        if lin.check(z3.Not(a)) == z3.unsat:
+            real.append(a)
+        elif lin.check(a) == z3.unsat:
+            real.append(z3.Not(a))
+    s = z3.Solver()
+    s.set("timeout", TIMEOUT_MS)
+    s.add(*real)
+    s.add(*eqs)
+    s.add(pneg)
+    return _guarded(lambda: s.check(), TIMEOUT_MS / 1000.0)
 
 
 def _model_dict(p, m):
